@@ -180,8 +180,41 @@ pub fn run(rep: &mut Rep) {
             }
         }
     }
-    // 0x41 decodes exactly like 0x0A on a shared corpus
+    // 0x41 decodes exactly like 0x0A: every single fault of well-formed seeds (missing required
+    // members, wrong types, ...) must be answered identically under both command bytes
     let cm = schema::credential_management();
+    let nf = rep.n(12, 600);
+    for _ in 0..nf * rep.nshards {
+        case += 1;
+        if !rep.mine(case) {
+            continue;
+        }
+        let mut rng = Rng::derive(seed, "c11-alias-faults", case);
+        let mut g = G::new(&mut rng);
+        g.small = true;
+        let v = gen_message(&cm, &mut g);
+        let mut fs = Vec::new();
+        crate::mon::c05::faults(0x0a, &cm, &v, &mut rng, &mut fs);
+        for f in fs {
+            if f.kind == "truncate" && f.bytes.len() % 3 != 0 {
+                continue;
+            }
+            if f.bytes.is_empty() || !rep.begin(&format!("alias-0x41/fault-{}", f.kind)) {
+                continue;
+            }
+            let mut b = f.bytes.clone();
+            b[0] = 0x41;
+            rep.input(&b, true);
+            let (da, db) = (decode(&f.bytes), decode(&b));
+            if da != db {
+                rep.violation(
+                    &format!("C11|alias|0x41-differs-from-0x0a|{}", f.kind),
+                    format!("fault {} on {:?}: 0x0a -> {} ; 0x41 -> {}", f.kind, f.member, short(&da), short(&db)),
+                    &b,
+                );
+            }
+        }
+    }
     let n = rep.n(400, 40_000);
     for _ in 0..n * rep.nshards {
         case += 1;
